@@ -70,6 +70,19 @@ def gen_plan(seed, tier):
     plan['maxiter'] = rng.choice([None, None, 5, 30, 100]); plan['maxfun'] = rng.choice([None, None, 20, 200])
     plan['via'] = rng.choice(['class', 'wrapper'])
     if kind == 'nm': plan['adaptive'] = rng.random() < 0.3
+    if rng.random() < 0.12:
+        # a start at (or within xtol of) the origin whose cost is (within ftol of) zero: before the simplex exists the
+        # placeholder vertices/energies must not let the stop rule fire at generation 0
+        tiny = rng.choice([0.0, 0.0, 5e-5, -5e-5])
+        plan['x0'] = [rng.choice([0.0, tiny]) for _ in range(dim)]
+        c = plan['cost']
+        if c['model'] not in ('quad', 'abs', 'maxabs', 'quant'): c = plan['cost'] = gen.gen_cost(rng, dim, ['quad', 'abs', 'quad'])
+        c['params']['f0'] = 0.0
+        from ..env import eval_model
+        f_at = eval_model(c, tuple(plan['x0']))
+        c['params']['f0'] = -f_at + rng.choice([0.0, 0.0, 5e-5, -3e-5])
+        plan['xtol'] = rng.choice([1e-4, 1e-2]); plan['ftol'] = rng.choice([1e-4, 1e-2])
+        plan['degenerate_start'] = True
     return plan
 
 
